@@ -664,6 +664,9 @@ func fmtBasic(fr *frame, verb rune, flags string, t types.Type, v value) value {
 		if isBytes && (verb == 's') {
 			return cellsToString(x)
 		}
+		if isBytes && verb == 'x' && flags == "" {
+			return cellsToString(hexNibbleCells(fr, x))
+		}
 		if isBytes && (verb == 'x' || verb == 'X') {
 			return hexOfCells(x, verb == 'X')
 		}
